@@ -61,7 +61,7 @@ static int calcT() {
   i128 cs = std::get<0>(t), nc = std::get<1>(t);
   bool ok = cs >= 1 && nc >= 1 && (nc - 1) * cs < size && size <= nc * cs && (r.chunk != 0 || (cs % g == 0));
   printf("real calcChunkSize: size=%lld chunk=%lld workers=%lld g=%lld -> chunkSize=%lld numChunks=%lld : %s\n", LL(size), LL(r.chunk), LL(nl + one), LL(g), LL(cs),
-         LL(nc), ok ? "numChunks == ceil(size/chunkSize)" : "numChunks is NOT ceil(size/chunkSize) (indices would be lost or duplicated)");
+         LL(nc), ok ? "contract holds" : "contract of calcChunkSize VIOLATED (numChunks != ceil(size/chunkSize), or chunkSize not a multiple of the granularity)");
   return ok ? 0 : 1;
 }
 
